@@ -9,8 +9,13 @@ BoundCall objects must be the ones the model's edges say.  Runs: the real engine
 under the cooperative scheduler (harness/coop.py) with 2–4 workers; both schedulers; outputs None / a node / nested
 structures; with and without a registry of non-retaining stores.
 
-Excluded on purpose (outside the model, see Props/C16.lean): failing runs (the exception's traceback holds frames,
-frames hold arguments), call functions or stores that keep their arguments, progress observers.
+Runs in which calls RAISE are included (max_errors None / 0 / 1 / 3): a consumer that raised has finished, so its
+arguments must be released at once (the drop sits in a `finally`); the harness clears the traceback of the user's
+exception when the failing call has left `process`, because frames reachable from a traceback (BoundCall.run's frame
+holds the argument values) are outside the model and the engine keeps the first error of a run until the end.
+
+Excluded on purpose (outside the model, see Props/C16.lean): what tracebacks / frames of ordinary failing functions
+pin, call functions or stores that keep their arguments, progress observers, retry wrappers on failing calls.
 """
 from __future__ import annotations
 
@@ -30,7 +35,14 @@ GEN = ["Refs"]
 ASSUMPTIONS = [
     "CPython reference counting + gc.collect() free an object as soon as nothing references it (weakref census)",
     "call functions and stores used for the census keep no reference to their arguments or results",
-    "only successful runs are compared (a raised exception's traceback pins frames and their arguments)",
+    "when a call raises, the harness clears the traceback of the user's exception as soon as it has left `process`: the "
+    "traceback references the user function's frame whose f_back chain keeps BoundCall.run's frame (and so the argument "
+    "values) alive while the exception lives - the engine keeps the FIRST error of a run until the run ends "
+    "(first_node_error.__cause__.__traceback__), so with the traceback intact the arguments of the first failing call stay "
+    "referenced until then.  Frames and tracebacks are outside the Refs model (C16 is PARTIAL); the exception objects "
+    "themselves are left in place",
+    "failing runs use retry=None (a retry wrapper's frame would hold the arguments in the traceback) and progress=None; "
+    "after a failing run the raised CallError is dropped before the final census (its traceback references run_physical's frame)",
 ]
 TRUSTED_EXTRA = ["C16 is claimed as proof, PARTIAL: references held by CPython frames, tracebacks, progress observers and "
                  "user code are outside the Refs model"]
@@ -105,9 +117,16 @@ def gen_case(rng, tier):
             out["list"].append({"tuple": [{"n": picks[2]}, {"v": 7}, {"n": picks[0]}]})
     reg = sorted(rng.sample(calls, rng.randint(0, len(calls)))) if rng.random() < (0.9 if out is None else 0.3) else []
     mode = rng.choice(["real1", "coop", "coop", "coop"])
+    failing = []
+    if calls and rng.random() < 0.4:
+        # prefer calls that consume something: then the failing call can be the LAST consumer of a result
+        consumers = [nd["id"] for nd in spec["nodes"] if nd["kind"] == "call" and (nd["args"] or nd["kwargs"])]
+        pool = consumers if consumers and rng.random() < 0.8 else calls
+        failing = sorted(rng.sample(pool, min(len(pool), rng.choice([1, 1, 2, 3]))))
     return {"spec": spec, "output": out, "registered": reg,
             "workers": 1 if mode == "real1" else rng.choice([1, 2, 3, 4]), "mode": mode,
-            "scheduler": rng.choice(["default", "random"])}
+            "scheduler": rng.choice(["default", "random"]), "failing": failing,
+            "max_errors": rng.choice([None, None, None, 0, 1, 3]) if failing else 0}
 
 
 def build(case, refs, rec):
@@ -132,10 +151,14 @@ def build(case, refs, rec):
             return {val(k): val(v) for k, v in ref["dict"]}
         raise ValueError(ref)
 
+    failing = set(case.get("failing", ()))
+
     def make_fn(i):
         def fn(*args, **kwargs):
             rec.add("start", i)
             plans._yield()
+            if i in failing:
+                raise plans.Failure("call %d" % i)
             r = Res("c%d" % i)
             refs[r.vid] = weakref.ref(r)
             return r
@@ -226,11 +249,28 @@ class Observer:
                 return inner(graph, fn, **kw)
             idx = self.describe(graph, fn)
             self.ended = []
+            self.failed = []
 
             def fn2(node):
                 if type(node) is Call:
                     self.hook("start", idx[node])
-                    fn(node)
+                    try:
+                        fn(node)
+                    except BaseException as e:
+                        # the call raised: control has left the try/finally of `process`, the call has finished.
+                        # The user exception's traceback references the user function's frame, whose f_back chain keeps
+                        # the frame of BoundCall.run - and with it the argument values - alive for as long as the
+                        # exception lives (the engine keeps the first error of a run until the end; the cooperative
+                        # scheduler's trace keeps all of them).  Frames are outside the model: cut that link here.
+                        c = e
+                        while c is not None:
+                            if c is not e:
+                                c.__traceback__ = None
+                            c = c.__cause__ or c.__context__
+                        del c
+                        self.failed.append(idx[node])
+                        self.hook("fail", idx[node])
+                        raise
                     self.ended.append(idx[node])
                     self.hook("end", idx[node])
                 else:
@@ -243,7 +283,7 @@ class Observer:
         with self.lock:
             m = self.model
             emptied = sorted(m["idx"][n] for n, s in m["lookup"].items() if s.value is None)
-            self.log.append((kind, k, list(self.ended), self.census(), emptied))
+            self.log.append((kind, k, (list(self.ended), list(self.failed)), self.census(), emptied))
 
 
 def run_case(case, seed):
@@ -264,7 +304,7 @@ def run_case(case, seed):
         rp.prep_run_physical = prep
         try:
             return uberjob.run(plan, output=output, registry=registry, max_workers=case["workers"],
-                               scheduler=case["scheduler"], progress=None)
+                               scheduler=case["scheduler"], progress=None, max_errors=case.get("max_errors", 0))
         finally:
             rp.run_function_on_graph = cur
             rp.prep_run_physical = orig_prep
@@ -286,6 +326,12 @@ def run_case(case, seed):
     else:
         r = coop.run_controlled(thunk, seed, mode="prim", snapshots=False)
     r.obs, r.refs, r.holder = obs, refs, holder
+    # uberjob caches inspect.signature per function (lru_cache(4096)); that keeps every generated call function alive
+    # and makes each gc.collect() of the census slower and slower - drop it between cases (harness-side only)
+    from uberjob._util import validation
+    validation.try_get_signature.cache_clear()
+    import uberjob._util as _u
+    _u.fully_qualified_name.cache_clear()
     return r
 
 
@@ -303,23 +349,26 @@ def contained(value, acc):
 
 
 # ------------------------------------------------------------------------------------------------ judging
-def model_line(m, out_idx, ended):
+def model_line(m, out_idx, fin):
+    """fin = (calls that returned, calls that raised): stored = returned, dropped = returned + raised."""
     kinds = " ".join("%d:%s" % (k, "U" if v == "N" else v) for k, v in sorted(m["kinds"].items()))
     args = " ".join("%d:%s" % (k, ",".join(map(str, a))) for k, a in sorted(m["args"].items()))
-    e = " ".join(map(str, ended))
-    return "c16 | %s | %s | %s | %s | %s | 0" % (kinds, args, "-" if out_idx is None else out_idx, e, e)
+    return "c16 | %s | %s | %s | %s | %s | 0" % (kinds, args, "-" if out_idx is None else out_idx,
+                                                 " ".join(map(str, fin[0])), " ".join(map(str, fin[0] + fin[1])))
 
 
-def oracle_live(m, out_idx, ended):
+def oracle_live(m, out_idx, fin):
     """Direct statement of the property (not the model): a tracked result may be alive only if it exists and
-    (it is the output, or it or one of its argument-consumers has not finished, or a live container holds it)."""
-    ended = set(ended)
+    (it is the output, or one of its argument-consumers has not finished, or a live container holds it).
+    A consumer that raised HAS finished."""
+    ended = set(fin[0])
+    done = ended | set(fin[1])
     consumers = {}
     for j, a in m["args"].items():
         for x in a:
             consumers.setdefault(x, set()).add(j)
     base = {i for i in ended if m["kinds"][i] != "L"
-            and (i == out_idx or any(j not in ended for j in consumers.get(i, ())))}
+            and (i == out_idx or any(j not in done for j in consumers.get(i, ())))}
     live = set(base)
     changed = True
     while changed:
@@ -337,10 +386,15 @@ def judge(case, r, driver):
     """-> (violations [str], disagreements [str], stats)"""
     viol, dis = [], []
     obs = r.obs
-    st = {"censuses": 0, "released_early_checks": 0, "max_live": 0, "released_before_end": 0}
-    if r.exc is not None or r.deadlock or r.hang:
-        dis.append(f"run did not succeed: exc={r.exc!r} deadlock={r.deadlock} hang={r.hang}")
+    st = {"censuses": 0, "max_live": 0, "released_before_end": 0, "failed_calls": 0, "released_by_failed_consumer": 0}
+    expect_fail = bool(case.get("failing"))
+    if r.deadlock or r.hang:
+        dis.append(f"run did not terminate: deadlock={r.deadlock} hang={r.hang}")
         return viol, dis, st
+    if r.exc is not None and not (expect_fail and isinstance(r.exc, uberjob.CallError)):
+        dis.append(f"run raised {r.exc!r}")
+        return viol, dis, st
+    failed_run = r.exc is not None
     m = obs.model
     final_live = sorted(contained(r.value, set()))
     if m is None:
@@ -353,38 +407,55 @@ def judge(case, r, driver):
     on = r.holder.get("output_node")
     out_idx = m["idx"].get(on) if on is not None else None
     tracked = m["vid"]
+    consumers = {}
+    for j, a in m["args"].items():
+        for x in a:
+            consumers.setdefault(x, set()).add(j)
     lines, recs = [], []
-    for kind, k, ended, census, emptied in obs.log:
+    for kind, k, fin, census, emptied in obs.log:
+        ok, failed = fin
         st["censuses"] += 1
         st["max_live"] = max(st["max_live"], len(census))
-        want = oracle_live(m, out_idx, ended)
+        want = oracle_live(m, out_idx, fin)
         want_v = sorted(tracked[i] for i in want if i in tracked)
         extra = sorted(set(census) - set(want_v))
         if extra:
-            viol.append(f"at {kind} of node {k} (finished {ended}): results {extra} are still alive although they and all "
-                        f"their consumers have finished and they are not part of the output")
-        if sorted(emptied) != sorted(set(ended)):
-            dis.append(f"at {kind} of node {k}: emptied lookup entries {emptied} != finished calls {sorted(set(ended))}")
-        done_tracked = [i for i in ended if i in tracked]
-        st["released_before_end"] += sum(1 for i in done_tracked if tracked[i] not in census)
-        lines.append(model_line(m, out_idx, ended))
-        recs.append((kind, k, ended, census))
+            viol.append(f"at {kind} of node {k} (returned {ok}, raised {failed}): results {extra} are still alive although "
+                        f"they and all their consumers have finished and they are not part of the output")
+        if sorted(emptied) != sorted(set(ok) | set(failed)):
+            dis.append(f"at {kind} of node {k}: emptied lookup entries {emptied} != finished calls {sorted(set(ok) | set(failed))}")
+        st["released_before_end"] += sum(1 for i in ok if i in tracked and tracked[i] not in census)
+        if kind == "fail":
+            st["failed_calls"] += 1
+            done = set(ok) | set(failed)
+            # results whose LAST consumer is the call that just raised
+            st["released_by_failed_consumer"] += sum(
+                1 for a in set(m["args"].get(k, [])) if a in tracked and a in ok and a != out_idx
+                and consumers[a] <= done and tracked[a] not in census)
+        lines.append(model_line(m, out_idx, fin))
+        recs.append((kind, k, fin, census))
     # after the run: exactly what the returned value contains is alive; after dropping it, nothing is
-    # (first let go of the harness's own handles on uberjob's lookup: the observer's and the scheduler's traces)
+    # (first let go of the harness's own handles on uberjob's lookup: the observer's and the scheduler's traces;
+    #  the traceback of the exception a failed run raised references the frames of run_physical, so it goes first)
     m.pop("lookup", None)
     r.traces = r.sched = None
-    after = obs.census()
-    if after != final_live:
-        (viol if set(after) - set(final_live) else dis).append(
-            f"after run returned: alive {after}, contained in the returned value {final_live}")
+    if failed_run:
+        r.exc = None
+    else:
+        after = obs.census()
+        if after != final_live:
+            (viol if set(after) - set(final_live) else dis).append(
+                f"after run returned: alive {after}, contained in the returned value {final_live}")
     r.value = None
     gone = obs.census()
     if gone:
-        viol.append(f"after the returned value was dropped, results {gone} are still alive (retained by uberjob)")
+        viol.append(f"after the returned value / the raised exception was dropped, results {gone} are still alive "
+                    f"(retained by uberjob)")
     pend = None
     if lines:
-        lines.append(model_line(m, out_idx, [i for i in range(len(m["nodes"])) if m["kinds"][i] != "L"]))
-        pend = (lines, recs, dict(tracked), final_live)
+        if not failed_run:
+            lines.append(model_line(m, out_idx, ([i for i in range(len(m["nodes"])) if m["kinds"][i] != "L"], [])))
+        pend = (lines, recs, dict(tracked), None if failed_run else final_live)
     st["pending"] = pend
     return viol, dis, st
 
@@ -411,6 +482,8 @@ def judge_model(pend, replies):
         model_v = sorted(tracked[i] for i in vals if i in tracked)
         if model_v != census:
             return [f"at {kind} of node {k} (finished {ended}): census {census} != model live set {model_v}"]
+    if final_live is None:        # a failed run returns nothing
+        return dis
     last = replies[-1]
     if not last.startswith("slots "):
         return [f"driver: {last}"]
@@ -440,9 +513,10 @@ def flush(driver, queue, dis):
 
 def explore(ctx):
     rng = random.Random(ctx.seed * 7919 + 16)
-    n = 300 if ctx.tier == "quick" else 6000
+    n = 500 if ctx.tier == "quick" else 9000
     viol, dis = [], []
     cov = {"programs": 0, "censuses": 0, "coop_runs": 0, "real_single_worker_runs": 0, "with_registry": 0,
+           "failing_runs": 0, "failed_calls_observed": 0, "results_released_by_a_failing_last_consumer": 0,
            "output_none": 0, "output_structure": 0, "max_live_at_once": 0, "released_before_end_observations": 0,
            "calls_observed": 0, "rule": "weakref census after gc.collect() at every call start/end == Lean Refs live set "
            "(driver c16); emptied lookup entries == finished calls; BoundCall slots == model edges",
@@ -463,12 +537,17 @@ def explore(ctx):
             cov["coop_runs"] += case["mode"] == "coop"
             cov["real_single_worker_runs"] += case["mode"] == "real1"
             cov["with_registry"] += bool(case["registered"])
+            cov["failing_runs"] += bool(case["failing"])
+            cov["failed_calls_observed"] += st["failed_calls"]
+            cov["results_released_by_a_failing_last_consumer"] += st["released_by_failed_consumer"]
             cov["output_none"] += case["output"] is None
             cov["output_structure"] += bool(case["output"]) and "n" not in case["output"]
             cov["max_live_at_once"] = max(cov["max_live_at_once"], st["max_live"])
             cov["released_before_end_observations"] += st["released_before_end"]
             cov["calls_observed"] += st["censuses"] // 2
-            distinct.add(tuple((k, kk, tuple(c)) for k, kk, _, c, _ in r.obs.log))
+            log_key = hash(tuple((k, kk, tuple(c)) for k, kk, _, c, _ in r.obs.log))
+            if len(r.obs.log) >= 4:
+                distinct.add(log_key)
             if len(cov["samples"]) < 2 and st["censuses"] >= 6:
                 cov["samples"].append({"case": case, "seed": seed})
             for what in v:
@@ -484,13 +563,15 @@ def explore(ctx):
         cov["model_evaluations"] += flush(ctx.driver, queue, dis)
     finally:
         gc.unfreeze()
-    cov["distinct_nontrivial"] = len([x for x in distinct if len(x) >= 4])
+    cov["distinct_nontrivial"] = len(distinct)
     if not viol and not dis:
         floor = 100 if ctx.tier == "quick" else 2000
-        if cov["released_before_end_observations"] < floor or cov["distinct_nontrivial"] < floor // 2:
+        if (cov["released_before_end_observations"] < floor or cov["distinct_nontrivial"] < floor // 2
+                or cov["results_released_by_a_failing_last_consumer"] < floor // 10):
             from harness.common import Broken
             raise Broken("correspondence", "c16-generator",
                          f"too few informative runs: {cov['released_before_end_observations']} release observations, "
+                         f"{cov['results_released_by_a_failing_last_consumer']} releases by a failing last consumer, "
                          f"{cov['distinct_nontrivial']} distinct logs")
     return {"violations": viol[:3], "disagreements": dis[:3], "coverage": cov}
 
